@@ -26,6 +26,7 @@
 #include <string>
 #include <list>
 #include <set>
+#include <atomic>
 
 namespace bloc
 {
@@ -129,7 +130,7 @@ public:
 
   int keyword() const { return _keyword; }
   Statement * next() const { return _next; }
-  size_t level() const { return _level; }
+  size_t level() const { return _level.load(std::memory_order_relaxed); }
 
   void setNext(Statement * s) { _next = s; }
 
@@ -140,7 +141,9 @@ protected:
 
   Statement * _next   = nullptr;
   STATEMENT _keyword  = STMT_NOP;
-  mutable size_t _level  = 0;
+  /* stamped by every execution, also by clones running the same program on
+   * other threads (they all stamp the same value): no plain write */
+  mutable std::atomic<size_t> _level { 0 };
 
   void unparse_next(Context& ctx, FILE * out) const;
 
